@@ -250,7 +250,9 @@ func mcCodecs() []mcCodec {
 				o, _ := (&RDPNegReq{Type: uint8(i[0]), Flags: uint8(i[1]), Length: uint16(i[2]), Protocols: uint32(i[3])}).ToBytes()
 				return o
 			},
-			gen:      func(r *vRng) ([]uint64, [][]byte) { return []uint64{mcEdge8(r), mcEdge8(r), mcEdge16(r), mcEdge32(r)}, [][]byte{} },
+			gen: func(r *vRng) ([]uint64, [][]byte) {
+				return []uint64{mcEdge8(r), mcEdge8(r), mcEdge16(r), mcEdge32(r)}, [][]byte{}
+			},
 			validLen: func(b []byte) bool { return len(b) == 8 },
 			seed:     func(r *vRng) []byte { return mcCat([]byte{1, 0, 8, 0, 3, 0, 0, 0}, r.Bytes(8)) },
 		},
@@ -320,11 +322,13 @@ const mcAlnum = "0123456789ABCDEFGHIJKLMNOPQRSTUVWXYZabcdefghijklmnopqrstuvwxyz"
 const mcInner = mcAlnum + "-#.@_"
 
 func mcWbUserLen(r *vRng) int {
-	switch r.Intn(8) {
+	switch r.Intn(9) {
 	case 0:
 		return 1
 	case 1:
 		return 3
+	case 8:
+		return 2
 	case 2: // payload 255 = one full chunk; around it
 		return 219 + r.Intn(5)
 	case 3:
@@ -336,7 +340,7 @@ func mcWbUserLen(r *vRng) int {
 	}
 }
 
-// a username of the documented grammar with exactly n bytes (n != 2: see the reference in the matcher part)
+// a username of the documented grammar with exactly n bytes
 func mcWbUser(r *vRng, n int) []byte {
 	u := make([]byte, n)
 	for i := range u {
@@ -516,9 +520,6 @@ func mcWbSeedOfLen(r *vRng, l int) []byte {
 	}
 	if ul < 1 {
 		ul = 1
-	}
-	if ul == 2 {
-		ul = 3
 	}
 	return mcWbEncode(mcWbUser(r, ul), r.Bytes(32), byte(r.Intn(2)))
 }
